@@ -25,6 +25,36 @@ type Ctx struct {
 	typeByID []types.Type
 	boxed    map[string]bool
 	sortOK   bool
+	sortAlias map[string]string
+}
+
+// mapKV: key sort and a per-value-TYPE alias of the value sort. Map contents
+// live in heap arrays named by these, so maps of different Go types (which can
+// never alias) live in different arrays even when their value sorts coincide.
+func (c *Ctx) mapKV(mt *types.Map) (ks, vs string) {
+	ks = c.sortOf(mt.Key())
+	real := c.sortOf(mt.Elem())
+	ek := typeName(types.Unalias(mt.Elem()))
+	if it, ok := mt.Elem().Underlying().(*types.Interface); ok && it.NumMethods() == 0 {
+		ek = "any"
+	}
+	alias := "V." + sanitize(ek)
+	if b, ok := mt.Elem().Underlying().(*types.Basic); ok && types.Unalias(mt.Elem()) == types.Type(b) {
+		return ks, real
+	}
+	if c.sortAlias == nil {
+		c.sortAlias = map[string]string{}
+	}
+	c.sortAlias[alias] = real
+	c.declare(alias, fmt.Sprintf("(define-sort %s () %s)", alias, real))
+	return ks, alias
+}
+
+func (c *Ctx) realSort(s string) string {
+	if r, ok := c.sortAlias[s]; ok {
+		return r
+	}
+	return s
 }
 
 type structInfo struct {
@@ -217,6 +247,7 @@ func (c *Ctx) structInfoOf(t types.Type) *structInfo {
 
 // zero value of a sort
 func (c *Ctx) zeroOfSort(srt string) Term {
+	srt = c.realSort(srt)
 	switch srt {
 	case "Int":
 		return "0"
@@ -296,6 +327,7 @@ func (c *Ctx) typeID(t types.Type) int {
 
 // box/unbox a value of the given sort into the Int payload of an interface
 func (c *Ctx) box(srt string, v Term) Term {
+	srt = c.realSort(srt)
 	switch srt {
 	case "Int":
 		return v
@@ -305,6 +337,7 @@ func (c *Ctx) box(srt string, v Term) Term {
 }
 
 func (c *Ctx) unbox(srt string, v Term) Term {
+	srt = c.realSort(srt)
 	switch srt {
 	case "Int":
 		return v
